@@ -443,10 +443,13 @@ impl VersionSet {
         self.curr_wal_number = maybe_curr_wal_num.unwrap();
         self.prev_wal_number = maybe_prev_wal_num;
 
+        // A manifest with a torn tail cannot be appended to
+        let is_manifest_tail_intact = manifest_reader.ends_at_record_boundary().unwrap_or(false);
+
         // Drop the manifest reader (and therefore the underlying file handle) before attempting to
         // reuse the existing manifest file
         drop(manifest_reader);
-        if self.maybe_reuse_manifest(&manifest_file_path) {
+        if is_manifest_tail_intact && self.maybe_reuse_manifest(&manifest_file_path) {
             return Ok(true);
         }
 
